@@ -36,6 +36,14 @@ DEFAULT_PROFILE = dict(
     p_zst_field=0.12,        # a by-value field of a zero-sized user type, when one is visible
     p_zst_miss=0.3,          # ... placed one byte off its alignment (near-miss: must be rejected)
     p_big_discr=0.0,         # an enum discriminant literal in 2^63 .. 2^64-1 (pyxis reads literals as isize: a parse error today)
+    # -- options of the execution oracle (tools/exec_oracle.py); off by default, and when off no random draw changes --
+    addr_pool=None,          # (base, stride, count): every #[address] of an impl function, #[singleton] and extern value
+                             # address is a distinct base + stride*k (k < count) instead of the usual arbitrary numbers
+    sig_types=None,          # "word": parameter and return types are integers of at most 64 bits and pointers only
+    p_impl_self=None,        # probability that an impl function has a receiver (None: the usual 0.8 + 0.2*0.7)
+    p_fn_pub=None,           # probability that a function (impl or virtual) is `pub` (None: the usual 0.75)
+    private_static_fns=False,  # impl functions without receiver are private (public ones are forwarded to derived types
+                             # with a body that uses `self`: known finding F10, the emitted crate does not compile)
 )
 
 
@@ -120,6 +128,18 @@ class Gen:
     def vis(self):
         return "pub " if self.chance("p_pub") else ""
 
+    def pool_addr(self, usual):
+        """the address to bind: `usual` (already drawn), or with the addr_pool option a so far unused pool address"""
+        pool = self.p.get("addr_pool")
+        if not pool:
+            return usual
+        base, stride, count = pool
+        if not hasattr(self, "pool_free"):
+            self.pool_free = list(range(count))
+        if not self.pool_free:
+            raise ValueError("addr_pool exhausted (%d addresses)" % count)
+        return base + stride * self.pool_free.pop(self.rng.randrange(len(self.pool_free)))
+
     # -- type references ---------------------------------------------------------------------------
     def visible_types(self, mod):
         """types usable from module `mod` (already generated ones)"""
@@ -169,6 +189,11 @@ class Gen:
 
     def arg_type(self, mod):
         rng = self.rng
+        if self.p.get("sig_types") == "word":
+            if rng.random() < 0.55:
+                return rng.choice(["u8", "u16", "u32", "u64", "i8", "i16", "i32", "i64"])
+            inner = rng.choice(["void", "u8", "i32"] + [self.ref_name(mod, t) for t in self.visible_types(mod)[:4]])
+            return "*%s %s" % (rng.choice(["const", "mut"]), inner)
         k = rng.random()
         if k < 0.5:
             return rng.choice(INT_PRIMS + ["f32", "bool"])
@@ -218,6 +243,10 @@ class Gen:
                 ret = rng.choice(["Missing%d" % self.uid, "*mut Missing%d" % self.uid])
                 self.expect["miss"] = "unresolvable return type"
         pub = rng.random() < 0.75
+        if self.p.get("p_fn_pub") is not None:
+            pub = rng.random() < self.p["p_fn_pub"]
+        if self.p.get("private_static_fns") and not vfunc and not has_self:
+            pub = False
         text = docs
         rng.shuffle(attrs)       # the order of attributes carries no meaning
         if attrs:
@@ -377,7 +406,7 @@ class Gen:
                 self.miss_done = False
         singleton = None
         if self.chance("p_singleton"):
-            singleton = rng.choice([0x10, 0x1234, 0x7FFF0000, rng.randint(1, 2**31)])
+            singleton = self.pool_addr(rng.choice([0x10, 0x1234, 0x7FFF0000, rng.randint(1, 2**31)]))
             attrs.append("singleton(%s)" % int_lit(rng, singleton, True))
         docs, doc_lines = self.doc()
         pub = self.chance("p_pub")
@@ -664,7 +693,7 @@ class Gen:
             defaultable = True
         singleton = None
         if self.chance("p_singleton"):
-            singleton = rng.choice([0x20, 0xDEADBEEF, rng.randint(1, 2**32 - 1)])
+            singleton = self.pool_addr(rng.choice([0x20, 0xDEADBEEF, rng.randint(1, 2**32 - 1)]))
             attrs.append("singleton(%s)" % int_lit(rng, singleton, True))
         docs, doc_lines = self.doc()
         pub = self.chance("p_pub")
@@ -686,11 +715,14 @@ class Gen:
             taken = set(d["name"] for d in (vslots or []) if d) | set(assoc)
             for i in range(self.r(self.p["impl_fns"])):
                 fname = self.fresh("m")
-                addr = rng.choice([0, 0x10, 0x401000, 2**31, 2**32 - 1, rng.randint(1, 2**40)])
+                addr = self.pool_addr(rng.choice([0, 0x10, 0x401000, 2**31, 2**32 - 1, rng.randint(1, 2**40)]))
                 if self.want_miss():
                     addr = None
                     self.expect["miss"] = "impl function without address"
-                t, d = self.function(mod, fname, False, address=addr, force_self=True if rng.random() < 0.8 else None)
+                force_self = True if rng.random() < 0.8 else None
+                if self.p.get("p_impl_self") is not None:
+                    force_self = rng.random() < self.p["p_impl_self"]
+                t, d = self.function(mod, fname, False, address=addr, force_self=force_self)
                 fns.append(t)
                 impl_desc.append(d)
                 if d["pub"]:
@@ -716,7 +748,7 @@ class Gen:
         rng = self.rng
         name = self.fresh("g")
         ttext, _, _, _ = self.field_type(mod)
-        addr = rng.choice([0x1000, 0xFFFF0000, rng.randint(0, 2**32)])
+        addr = self.pool_addr(rng.choice([0x1000, 0xFFFF0000, rng.randint(0, 2**32)]))
         pub = self.chance("p_pub")
         if self.want_miss():
             text = "%sextern %s: %s;" % ("pub " if pub else "", name, ttext)
